@@ -1,5 +1,6 @@
 //! C09: Generation::serial_next / par_next with an instrumented child maker.
 //! input = [mode, population, fail_at]   mode 0 = serial_next, T > 0 = par_next in a rayon pool of T threads
+//!   mode 400 + T: BULK step, population = [n] (see run_bulk)
 //!   mode 100 + T: the same with scored individuals and a child maker built through GenomeScorer (probe genome maker + scorer)
 //!      or [mode, population, fail_at, [[mode, fail_at]...]]: further steps of the SAME Generation value
 //!         (observation then has a 4th element: the list of [result, population afterwards, log] of those steps)
@@ -120,6 +121,79 @@ fn run_scored(steps: &[(usize, i64)], pop: Vec<i64>, four: bool) -> Option<Tree>
     Some(L(first))
 }
 
+/// BULK steps (mode 400 + T): a population of n scored individuals (genomes 0..n) stepped once through a GenomeScorer
+/// child maker; the log is too large for the wire, so the harness reduces it to counts:
+/// observation = [result, [length afterwards, 1 iff the population afterwards is what it must be (the children in call
+/// order for a serial step / as a multiset for a parallel one / the old population after a failure) and every individual
+/// carries the scorer's result], [calls, 1 iff every call saw the generation's own old population, number of DISTINCT
+/// (word1, word2) pairs the calls drew, number of children made]]
+#[derive(Clone)]
+struct BProbe {
+    log: Arc<Mutex<Vec<(u64, u64, bool, i64)>>>,
+    calls: Arc<AtomicI64>,
+    fail_at: i64,
+    n: usize,
+    addr: Arc<AtomicUsize>,
+}
+impl Composable for BProbe {}
+impl<'p> Operator<&'p Vec<Ind>> for BProbe {
+    type Output = i64;
+    type Error = CmErr;
+    fn apply<R: rand::Rng + ?Sized>(&self, pop: &'p Vec<Ind>, rng: &mut R) -> Result<i64, CmErr> {
+        let k = self.calls.fetch_add(1, Ordering::SeqCst);
+        let (w1, w2) = (rng.next_u64(), rng.next_u64());
+        let addr_ok = std::ptr::eq(pop, self.addr.load(Ordering::SeqCst) as *const Vec<Ind>);
+        // the whole population cannot be compared on each of n calls; its length and three of its members are
+        let at = |j: usize| pop.get(j).is_some_and(|i| i.genome == j as i64 && i.test_results == score_of(&i.genome));
+        let ku = k as usize;
+        let same = pop.len() == self.n && (self.n == 0 || (at(ku % self.n) && at(ku.wrapping_mul(7919) % self.n) && at(self.n - 1)));
+        let child = (w1 >> 2) as i64;
+        let failed = k == self.fail_at;
+        self.log.lock().unwrap().push((w1, w2, addr_ok && same, if failed { -1 } else { child }));
+        if failed {
+            Err(CmErr(k))
+        } else {
+            Ok(child)
+        }
+    }
+}
+fn run_bulk(threads: usize, n: usize, fail_at: i64) -> Option<Tree> {
+    let probe = BProbe { log: Arc::new(Mutex::new(Vec::with_capacity(n))), calls: Arc::new(AtomicI64::new(0)), fail_at, n, addr: Arc::new(AtomicUsize::new(0)) };
+    let population: Vec<Ind> = (0..n as i64).map(|g| EcIndividual::new(g, score_of(&g))).collect();
+    let scorer = FnScorer(|g: &i64| score_of(g));
+    let mut g = Generation::new(GenomeScorer::new(probe.clone(), scorer), population);
+    probe.addr.store(g.population() as *const Vec<Ind> as usize, Ordering::SeqCst);
+    let r = if threads == 0 {
+        g.serial_next()
+    } else {
+        let pool = rayon::ThreadPoolBuilder::new().num_threads(threads).build().ok()?;
+        pool.install(|| g.par_next())
+    };
+    let log = probe.log.lock().unwrap().clone();
+    let scored = g.population().iter().all(|i| i.test_results == score_of(&i.genome));
+    let after: Vec<i64> = g.population().iter().map(|i| i.genome).collect();
+    let (res, expected_ok) = match r {
+        Ok(()) => {
+            let mut children: Vec<i64> = log.iter().filter(|e| e.3 >= 0).map(|e| e.3).collect();
+            let mut got = after.clone();
+            if threads > 0 {
+                children.sort_unstable();
+                got.sort_unstable();
+            }
+            (tl![A(0)], children == got)
+        }
+        Err(e) => (tl![A(1), a(e.0)], after.iter().enumerate().all(|(j, x)| *x == j as i64)),
+    };
+    let mut pairs: Vec<(u64, u64)> = log.iter().map(|e| (e.0, e.1)).collect();
+    pairs.sort_unstable();
+    pairs.dedup();
+    Some(tl![
+        res,
+        tl![au(after.len()), ab(expected_ok && scored)],
+        tl![au(log.len()), ab(log.iter().all(|e| e.2)), au(pairs.len()), au(log.iter().filter(|e| e.3 >= 0).count())]
+    ])
+}
+
 /// populations of other collection types: sets (duplicate children collapse, so the size changes from step to step)
 /// and double-ended queues
 trait PopView: Send + Sync {
@@ -217,6 +291,11 @@ fn run(input: &Tree) -> Option<Tree> {
             }
             steps.push((st.first()?.usize()?, st.get(1)?.i64()?));
         }
+    }
+    if l.len() == 3 && (400..=464).contains(&steps[0].0) {
+        // bulk: the population is given by its size alone
+        let n = usize::try_from(*pop.first()?).ok()?;
+        return run_bulk(steps[0].0 - 400, n, steps[0].1);
     }
     if steps.iter().all(|(m, _)| (100..=164).contains(m)) {
         return run_scored(&steps, pop, l.len() == 4);
@@ -347,6 +426,13 @@ fn gen(tier: &str, rng: &mut Sm) -> Gen {
             g.inputs.push(tl![b(4), L(pop.clone()), A(-1), L(vec![tl![b(4), A(-1)], tl![b(0), A(-1)], tl![b(2), A(1)], tl![b(2), A(-1)]])]);
         }
     }
-    g.meta("generator", format!("population sizes 0, 1, 2, 7, 64 (and 3000 under pools of 8 and 16 threads); serial_next and par_next under rayon pools of 1, 2, 3, 4, 8, 16 threads x {reps} repetitions; failure injected at every call position (sampled for size 64) and none; a child maker built through GenomeScorer with a one-off failing genome maker; histories of 5 steps of one Generation value (failing steps followed by successful ones, serial and parallel mixed); BTreeSet populations whose children collide (the size changes between steps) and VecDeque populations"));
+    // BULK: enough children in ONE step (400 000, each drawing 128 bits) for the birthday bound to expose a child maker
+    // whose children are handed randomness from a small seed space (2^32 seeds collide ~18 times here; honest 128-bit
+    // draws collide with probability < 2^-90); reduced to counts by the harness; also atomicity at that size
+    let big: i64 = if tier == "thorough" { 1_500_000 } else { 400_000 };
+    for (mode, n, f) in [(400usize, big, -1i64), (408, big, -1), (400, 50_000, 31_337), (416, 50_000, 49_999), (403, 0, -1), (400, 1, 0)] {
+        g.inputs.push(tl![au(mode), tl![a(n)], a(f)]);
+    }
+    g.meta("generator", format!("population sizes 0, 1, 2, 7, 64 (and 3000 under pools of 8 and 16 threads); serial_next and par_next under rayon pools of 1, 2, 3, 4, 8, 16 threads x {reps} repetitions; failure injected at every call position (sampled for size 64) and none; a child maker built through GenomeScorer with a one-off failing genome maker; histories of 5 steps of one Generation value (failing steps followed by successful ones, serial and parallel mixed); BTreeSet populations whose children collide (the size changes between steps) and VecDeque populations; bulk steps of 400 000 (and 50 000 with an injected failure) scored individuals through GenomeScorer, serial and under pools of 8 / 16 threads, reduced to counts (calls, distinct 128-bit draws, children, population as expected)"));
     g
 }
